@@ -159,6 +159,12 @@ def run(ctx):
                 for ts2 in (ts, (ts[0], 1, 1, 0, 0), (ts[0], 8, 10, 12, 0)):
                     cases.append({"text": "%s %d%s" % (wd, d, G.ordinal_suffix(d)), "ts": ts2, "latent": 1, "depth": 10, "rel": 1.0,
                                   "scorer": "shipped", "seed": 0, "entries": ["single", "gen"], "label": "dow-dom", "form": "dow-dom"})
+    # relative-day forms on the days around every New Year 2015-2031 (ISO week 53 / week 1 of the neighbouring year)
+    for y in range(2015, 2032):
+        for (mm, dd) in ((12, 28), (12, 29), (12, 30), (12, 31), (1, 1), (1, 2), (1, 3), (1, 4)):
+            for t in ("this monday", "diesen sonntag", "next friday", "monday next week", "on thursday", "tomorrow", "eom", "end of year", "sunday"):
+                cases.append({"text": t, "ts": (y, mm, dd, 12, 0), "latent": 1, "depth": 10, "rel": 1.0, "scorer": "shipped", "seed": 0,
+                              "entries": ["single"], "label": "new-year", "form": "new-year"})
     # smoke subset under a tiny REAL timeout (the expiry point is not controlled here; C13 enumerates them)
     for t in texts[::40]:
         cases.append({"text": t, "ts": (2018, 3, 7, 12, 43), "latent": 1, "depth": 10, "rel": 1.0, "scorer": "shipped", "timeout": 0.0001,
